@@ -194,7 +194,8 @@ D11 = ([("true",)], [("keep",)], "allof")
 D12 = ([("Subject", ":is", "dup"), ("exists", "X-B"), ("Subject", ":is", "dup")], [("keep",)], "anyof")  # last condition equals the first
 D13 = ([("Subject", ":contains", "away")], [("vacation", ":seconds", 90, ":subject", "Out", "gone")], "anyof")
 D14 = ([("Subject", ":contains", "zero")], [("vacation", ":days", 0, "reason")], "anyof")
-DEFS = {"d14": D14, "d13": D13, "d1": D1, "d2": D2, "d3": D3, "d4": D4, "d5": D5, "d6": D6, "d7": D7, "d8": D8, "d9": D9, "d10": D10, "d11": D11, "d12": D12}
+D15 = ([("Subject", ":contains", "a\r\nb")], [("vacation", ":subject", "Out", "line one\r\nline two\rthree\n")], "anyof")  # CR, CRLF and LF inside values
+DEFS = {"d15": D15, "d14": D14, "d13": D13, "d1": D1, "d2": D2, "d3": D3, "d4": D4, "d5": D5, "d6": D6, "d7": D7, "d8": D8, "d9": D9, "d10": D10, "d11": D11, "d12": D12}
 
 
 def new_set(ns, name="t", **kw):
